@@ -497,3 +497,193 @@ Theorem C17_x86_arith_mem_imm_unchecked_refuted :
   exists op imm e, i64 imm /\ arith_mem_imm false op 8 false imm = Some e /\ effective_imm e <> imm mod 2 ^ (8 * 8).
 Proof. exact arith_mem_imm_unchecked_refuted. Qed.
 Print Assumptions C17_x86_arith_mem_imm_unchecked_refuted.
+
+(* ---------------------------------------------------------------------------------------------------------------- *)
+(* round 5: translator tie of the field layouts of encode_offset32 to the SOURCE TEXT of codewriter.cpp *)
+From Verif Require Import Codec.LayoutModel Codec.LayoutProofs.
+From VerifGen Require C17Layouts.
+Import ListNotations.
+
+(* the table re-extracted from the current source (masks, shifts, J bits, sign bits, sanity tests of every non-contiguous
+   case of the switch) is the one the two theorems below are about *)
+Theorem C17_layouts_current : C17Layouts.gen_layouts = expected_layouts.
+Proof. exact C17Layouts.gen_layouts_ok. Qed.
+Print Assumptions C17_layouts_current.
+
+(* the table (bitwise ORs of masked/shifted pieces, as in the C++) denotes the packers of the model of HEAD (sums of
+   div/mod fields), for every listed type, EVERY uint32 value and both signs *)
+Theorem C17_layout_pack_eq : forall t l vs bc bs value u,
+  layout_of t expected_layouts = Some l -> 0 <= value < 2 ^ 32 -> (u = 0 \/ u = 1) ->
+  eval_layout l vs bc bs value u = packer_head t vs bc bs value u.
+Proof. exact layout_pack_eq. Qed.
+Print Assumptions C17_layout_pack_eq.
+
+(* what must NOT change, generic in the table (so it also holds for a re-extracted one): a layout only sets bits of its mask *)
+Theorem C17_layout_inside_mask : forall l vs bc bs value u m, (u = 0 \/ u = 1) ->
+  eval_layout l vs bc bs value u = Some m -> Z.land m (Z.lnot (layout_mask l)) = 0.
+Proof. exact eval_inside_mask. Qed.
+Print Assumptions C17_layout_inside_mask.
+
+(* end to end on the model of HEAD, all eight non-contiguous 4-byte formats, every int64 offset: patching keeps every bit
+   of the old word outside the format's mask; the masks are the architectural field masks (layout_masks_values) *)
+Theorem C17_write_offset_outside_mask : forall f old off w l,
+  vsize f = 4 -> 0 < bits f <= 32 -> 0 <= discard f <= 31 -> int64 off ->
+  layout_of (ty f) expected_layouts = Some l -> write_offset_var true true f old off = Some w ->
+  Z.land w (Z.lnot (layout_mask l)) = Z.land old (Z.lnot (layout_mask l)) /\
+  exists m, encode_offset_var true true f off = Some m /\ w = Z.lor old m /\ Z.land m (Z.lnot (layout_mask l)) = 0.
+Proof. exact head_write_offset_outside. Qed.
+Print Assumptions C17_write_offset_outside_mask.
+
+Theorem C17_layout_masks : 
+  map (fun p => layout_mask (snd p)) expected_layouts =
+  [ 0x04A070FF; 0x07FF2FFF; 0x07FF2FFF; 0x043F2FFF; 0x00800F0F; 0x01FFFFFF; 0x60FFFFE0; 0x60FFFFE0 ].
+Proof. exact layout_masks_values. Qed.
+Print Assumptions C17_layout_masks.
+
+(* x86 TEST r/m, imm and MOV r/m, imm: the operand the CPU reconstructs is the immediate modulo the operand size; 64-bit
+   TEST and MOV m64 exist only with a sign-extended imm32 (accepted exactly for int32 in the fixed tree); MOV r64 always
+   loads exactly the immediate (B8+r id zero-extended when optimising for size, REX.W C7 /0 id, or movabs) *)
+Theorem C17_x86_test_reg_imm_exact : forall size acc longform imm e,
+  size_ok4 size -> i64 imm -> test_reg_imm true size acc longform imm = Some e ->
+  effective_imm e = imm mod 2 ^ (8 * size) /\ ae_opsize e = size /\ ae_immsize e = Z.min size 4 /\
+  (size = 8 -> - 2 ^ 31 <= imm < 2 ^ 31).
+Proof. exact test_reg_imm_exact. Qed.
+Print Assumptions C17_x86_test_reg_imm_exact.
+
+Theorem C17_x86_test_reg_imm_refused_iff : forall size acc longform imm, size_ok4 size -> i64 imm ->
+  (test_reg_imm true size acc longform imm = None <-> size = 8 /\ ~ (- 2 ^ 31 <= imm < 2 ^ 31)).
+Proof. exact test_reg_imm_refused_iff. Qed.
+Print Assumptions C17_x86_test_reg_imm_refused_iff.
+
+Theorem C17_x86_test_mem_imm_exact : forall mem_size imm e,
+  size_ok4 mem_size -> i64 imm -> test_mem_imm true mem_size imm = Some e ->
+  effective_imm e = imm mod 2 ^ (8 * mem_size) /\ ae_opsize e = mem_size /\ (mem_size = 8 -> - 2 ^ 31 <= imm < 2 ^ 31).
+Proof. exact test_mem_imm_exact. Qed.
+Print Assumptions C17_x86_test_mem_imm_exact.
+
+Theorem C17_x86_mov_reg_imm_exact : forall size acc optsize longform imm,
+  size_ok4 size -> i64 imm ->
+  let e := mov_reg_imm size acc optsize longform imm in
+  effective_imm e = imm mod 2 ^ (8 * ae_opsize e) /\
+  (size <> 8 -> ae_opsize e = size) /\
+  (size = 8 -> ae_opsize e = 8 \/ (ae_opsize e = 4 /\ 0 <= imm < 2 ^ 32)) /\
+  (longform = true -> ae_opsize e = size /\ ae_immsize e = size).
+Proof. exact mov_reg_imm_exact. Qed.
+Print Assumptions C17_x86_mov_reg_imm_exact.
+
+Theorem C17_x86_mov_mem_imm_exact : forall mem_size imm e,
+  size_ok4 mem_size -> i64 imm -> mov_mem_imm true mem_size imm = Some e ->
+  effective_imm e = imm mod 2 ^ (8 * mem_size) /\ ae_opsize e = mem_size /\ (mem_size = 8 -> - 2 ^ 31 <= imm < 2 ^ 31).
+Proof. exact mov_mem_imm_exact. Qed.
+Print Assumptions C17_x86_mov_mem_imm_exact.
+
+Theorem C17_x86_test_mov_mem_refused_iff : forall mem_size imm, size_ok4 mem_size -> i64 imm ->
+  (test_mem_imm true mem_size imm = None <-> mem_size = 8 /\ ~ (- 2 ^ 31 <= imm < 2 ^ 31)) /\
+  (mov_mem_imm true mem_size imm = None <-> mem_size = 8 /\ ~ (- 2 ^ 31 <= imm < 2 ^ 31)).
+Proof. exact test_mov_mem_refused_iff. Qed.
+Print Assumptions C17_x86_test_mov_mem_refused_iff.
+
+(* KNOWN FINDING: without the int32 test TEST r/m64 and MOV m64 truncate *)
+Theorem C17_x86_test_mov_imm64_unchecked_refuted :
+  (exists imm e, i64 imm /\ test_reg_imm false 8 true false imm = Some e /\ effective_imm e <> imm mod 2 ^ 64) /\
+  (exists imm e, i64 imm /\ test_mem_imm false 8 imm = Some e /\ effective_imm e <> imm mod 2 ^ 64) /\
+  (exists imm e, i64 imm /\ mov_mem_imm false 8 imm = Some e /\ effective_imm e <> imm mod 2 ^ 64).
+Proof. exact test_mov_imm64_unchecked_refuted. Qed.
+Print Assumptions C17_x86_test_mov_imm64_unchecked_refuted.
+
+(* IMUL r, r/m, imm and PUSH imm (64-bit mode): same statements *)
+Theorem C17_x86_imul_imm_exact : forall mem size longform imm e,
+  (size = 2 \/ size = 4 \/ size = 8) -> i64 imm -> imul_imm true mem size longform imm = Some e ->
+  effective_imm e = imm mod 2 ^ (8 * size) /\ ae_opsize e = size /\ (size = 8 -> - 2 ^ 31 <= imm < 2 ^ 31) /\
+  (ae_immsize e = 1 \/ ae_immsize e = Z.min size 4).
+Proof. exact imul_imm_exact. Qed.
+Print Assumptions C17_x86_imul_imm_exact.
+
+Theorem C17_x86_push_imm_exact : forall longform imm e,
+  i64 imm -> push_imm true longform imm = Some e ->
+  effective_imm e = imm mod 2 ^ 64 /\ - 2 ^ 31 <= imm < 2 ^ 31 /\ (ae_immsize e = 1 \/ ae_immsize e = 4).
+Proof. exact push_imm_exact. Qed.
+Print Assumptions C17_x86_push_imm_exact.
+
+Theorem C17_x86_imul_push_refused_iff : forall mem size longform imm, (size = 2 \/ size = 4 \/ size = 8) -> i64 imm ->
+  (imul_imm true mem size longform imm = None <-> size = 8 /\ ~ (- 2 ^ 31 <= imm < 2 ^ 31)) /\
+  (push_imm true longform imm = None <-> ~ (- 2 ^ 31 <= imm < 2 ^ 31)).
+Proof. exact imul_push_refused_iff. Qed.
+Print Assumptions C17_x86_imul_push_refused_iff.
+
+Theorem C17_x86_imul_push_imm64_unchecked_refuted :
+  (exists imm e, i64 imm /\ imul_imm false false 8 false imm = Some e /\ effective_imm e <> imm mod 2 ^ 64) /\
+  (exists imm e, i64 imm /\ push_imm false false imm = Some e /\ effective_imm e <> imm mod 2 ^ 64).
+Proof. exact imul_push_imm64_unchecked_refuted. Qed.
+Print Assumptions C17_x86_imul_push_imm64_unchecked_refuted.
+
+(* what must NOT change for the two sign-bit formats whose field position is a parameter (not in the layout table) *)
+From Verif Require Import Codec.A32OutsideProofs.
+
+Theorem C17_a32_u23_inside_mask : forall f off m,
+  is_a32_u23_fmt f -> int64 off -> encode_offset f off = Some m -> Z.land m (Z.lnot (a32_u23_mask f)) = 0.
+Proof. exact a32_u23_inside. Qed.
+Print Assumptions C17_a32_u23_inside_mask.
+
+Theorem C17_a32_adr_inside_mask : forall f off m,
+  is_a32_adr_fmt f -> int64 off -> encode_offset f off = Some m -> Z.land m (Z.lnot (a32_adr_mask f)) = 0.
+Proof. exact a32_adr_inside. Qed.
+Print Assumptions C17_a32_adr_inside_mask.
+
+Theorem C17_a32_write_offset_outside_mask : forall f old off w mask,
+  (is_a32_u23_fmt f /\ mask = a32_u23_mask f) \/ (is_a32_adr_fmt f /\ mask = a32_adr_mask f) -> int64 off ->
+  write_offset f old off = Some w -> Z.land w (Z.lnot mask) = Z.land old (Z.lnot mask).
+Proof. exact a32_write_offset_outside. Qed.
+Print Assumptions C17_a32_write_offset_outside_mask.
+
+(* 8-byte unsigned fields (encode_offset64): round trip and exact refusal for every int64 offset -- for the code as it is when
+   bits + discard <= 63, and without that restriction once negative displacements are refused first (fixed tree) *)
+From Verif Require Import Codec.Unsigned64Model Codec.Unsigned64Proofs.
+
+Theorem C17_unsigned64_roundtrip : forall f off m,
+  ty f = UnsignedOffset -> wf_contig64 f -> int64 off -> bits f + discard f <= 63 ->
+  encode_offset f off = Some m ->
+  decode_unsigned f m = off /\ 0 <= m < 2 ^ (bits f + shift f) /\ m mod 2 ^ shift f = 0.
+Proof. exact unsigned64_roundtrip. Qed.
+Print Assumptions C17_unsigned64_roundtrip.
+
+Theorem C17_unsigned64_refused_iff : forall f off,
+  ty f = UnsignedOffset -> wf_contig64 f -> int64 off -> bits f + discard f <= 63 ->
+  (encode_offset f off = None <-> ~ (off mod 2 ^ discard f = 0 /\ 0 <= off / 2 ^ discard f < 2 ^ bits f)).
+Proof. exact unsigned64_refused_iff. Qed.
+Print Assumptions C17_unsigned64_refused_iff.
+
+Theorem C17_unsigned64_fixed_spec : forall fb fc f off,
+  ty f = UnsignedOffset -> wf_contig64 f -> int64 off ->
+  match encode_offset_top fb fc true f off with
+  | Some m => (off mod 2 ^ discard f = 0 /\ 0 <= off / 2 ^ discard f < 2 ^ bits f) /\
+              m = (off / 2 ^ discard f) * 2 ^ shift f /\ decode_unsigned f m = off
+  | None => ~ (off mod 2 ^ discard f = 0 /\ 0 <= off / 2 ^ discard f < 2 ^ bits f)
+  end.
+Proof. exact unsigned64_top_spec. Qed.
+Print Assumptions C17_unsigned64_fixed_spec.
+
+(* KNOWN FINDING: with bits + discard = 64 the code as it is stores a negative displacement as its two's complement *)
+Theorem C17_unsigned64_negative_refuted :
+  exists f off m, ty f = UnsignedOffset /\ wf_contig64 f /\ int64 off /\ off < 0 /\
+                  encode_offset f off = Some m /\ decode_unsigned f m <> off.
+Proof. exact unsigned64_negative_refuted. Qed.
+Print Assumptions C17_unsigned64_negative_refuted.
+
+(* byte level (write_offset on a region: value_offset, little-endian word of vsize bytes): length and every byte outside
+   [value_offset, value_offset + vsize) unchanged; the bytes inside are the little-endian split of write_offset's word *)
+From Verif Require Import Codec.BytesProofs.
+
+Theorem C17_write_offset_bytes_exact : forall f region vo off region',
+  (0 < Z.to_nat (vsize f))%nat ->
+  write_offset_bytes f region vo off = Some region' ->
+  let n := Z.to_nat (vsize f) in
+  length region' = length region /\
+  firstn vo region' = firstn vo region /\
+  skipn (vo + n) region' = skipn (vo + n) region /\
+  (forall i d, (i < vo \/ vo + n <= i)%nat -> nth i region' d = nth i region d) /\
+  exists w, write_offset f (le_join (firstn n (skipn vo region))) off = Some w /\
+            firstn n (skipn vo region') = le_split n w /\
+            le_join (firstn n (skipn vo region')) = w mod 256 ^ Z.of_nat n.
+Proof. exact write_offset_bytes_exact. Qed.
+Print Assumptions C17_write_offset_bytes_exact.
